@@ -9,6 +9,9 @@ export CARGO_NET_OFFLINE=true
 (cd harness-off && cargo build --offline 2>&1 | tail -3)
 [ -f sideharness/Cargo.lock ] || cp /repo/Cargo.lock sideharness/Cargo.lock
 (cd sideharness && cargo build --offline 2>&1 | tail -3)
+[ -f macroharness/Cargo.lock ] || cp /repo/Cargo.lock macroharness/Cargo.lock
+[ -f macroharness/src/gen.rs ] || printf 'pub fn run_all() -> Vec<serde_json::Value> { vec![] }\n' > macroharness/src/gen.rs
+(cd macroharness && cargo build --offline 2>&1 | tail -3)
 tlc -h >/dev/null 2>&1 || true
 mkdir -p out evidence
 echo "setup ok"
